@@ -2,7 +2,8 @@
 C04 — helper definitions and lemmas (core Lean only; the property theorems are in
 `J2O.Props.C04`).
 
-* `DivOk`, `SafeDiv`     : when ONNX's truncating `Div` agrees with Python's `//`
+* `tdiv_sub_fmod`, `onnx_eq_jax` : `Div(Sub(a, Mod(a,b)), b)` is Python's `//`; all four ops agree
+* `same_eval`, `nf_eval`, `faithful_of_consistent` : soundness of the key-consistency checker
 * `OrgSound`             : every symbol is read from an axis that really has that extent
 * `lowerExpr_eval`       : the un-memoised chain computes the expression with ONNX semantics
 * `Faithful`, `CacheOK`  : text keys that denote one value each; coherent memo
@@ -16,81 +17,32 @@ set_option linter.unusedSimpArgs false
 namespace J2O.C04
 
 
-/-- when truncating and flooring division agree -/
-def DivOk (x y : Int) : Prop := y ∣ x ∨ (0 ≤ x ∧ 0 ≤ y) ∨ (x ≤ 0 ∧ y ≤ 0)
+/-- **Floor division from truncating division.** `a - a mod b` (floor-mod: sign of the divisor) is an
+    exact multiple of `b`, so ONNX's truncating `Div` of it is Python's `a // b` — for every sign
+    combination (and `0` for `b = 0`, where both are `0` in Lean; Python raises there). -/
+theorem tdiv_sub_fmod (a b : Int) : Int.tdiv (a - Int.fmod a b) b = Int.fdiv a b := by
+  by_cases hb : b = 0
+  · subst hb; simp
+  · have h : a - Int.fmod a b = b * Int.fdiv a b := by
+      have := Int.mul_fdiv_add_fmod a b
+      omega
+    rw [h, Int.mul_tdiv_cancel_left _ hb]
 
-theorem tdiv_eq_fdiv_of_divOk {x y : Int} (h : DivOk x y) : Int.tdiv x y = Int.fdiv x y := by
-  have := @Int.fdiv_eq_tdiv x y
-  rcases h with h | ⟨h1, h2⟩ | ⟨h1, h2⟩
-  · simp [h] at this; omega
-  · by_cases hd : y ∣ x
-    · simp [hd] at this; omega
-    · simp [hd, h1, h2] at this; omega
-  · by_cases hd : y ∣ x
-    · simp [hd] at this; omega
-    · have hx : x ≠ 0 := by intro h0; subst h0; exact hd (Int.dvd_zero y)
-      have hx' : ¬ (0 ≤ x) := by omega
-      by_cases hy : y = 0
-      · subst hy; simp
-      · have hy' : ¬ (0 ≤ y) := by omega
-        have hs : y.sign = -1 := Int.sign_eq_neg_one_of_neg (by omega)
-        simp [hd, hx', hy', hs] at this; omega
+/-- the nodes the repaired lowerer emits mean exactly what JAX means, for all four operations -/
+theorem onnx_eq_jax : OpKind.onnx = OpKind.jax := by
+  funext o a b
+  cases o
+  · exact tdiv_sub_fmod a b
+  all_goals rfl
 
+/-- REGRESSION (old lowering, single `Div`): negative numerator, positive denominator, non-zero
+    remainder ⇒ truncation is one above the floor. -/
 theorem tdiv_eq_fdiv_add_one {x y : Int} (hx : x < 0) (hy : 0 < y) (hd : ¬ y ∣ x) :
     Int.tdiv x y = Int.fdiv x y + 1 := by
   have := @Int.fdiv_eq_tdiv x y
   have hx' : ¬ (0 ≤ x) := by omega
   have hs : y.sign = 1 := Int.sign_eq_one_of_pos hy
   simp [hd, hx', Int.le_of_lt hy, hs] at this; omega
-
-mutual
-  def Factor.SafeDiv (σ : String → Int) : Factor → Prop
-    | .var _ => True
-    | .op _ o a b => a.SafeDiv σ ∧ b.SafeDiv σ ∧
-        (o = .floordiv → DivOk (a.evalWith OpKind.jax σ) (b.evalWith OpKind.jax σ))
-  def Term.SafeDiv (σ : String → Int) : Term → Prop
-    | .one => True
-    | .mul _ f _ rest => f.SafeDiv σ ∧ rest.SafeDiv σ
-  def Terms.SafeDiv (σ : String → Int) : Terms → Prop
-    | .nil => True
-    | .cons _ _ t _ rest => t.SafeDiv σ ∧ rest.SafeDiv σ
-  def Expr.SafeDiv (σ : String → Int) : Expr → Prop
-    | .mk _ ts => ts.SafeDiv σ
-end
-
-mutual
-  theorem Factor.evalO_eq (σ : String → Int) : (f : Factor) → f.SafeDiv σ →
-      f.evalWith OpKind.onnx σ = f.evalWith OpKind.jax σ
-    | .var _, _ => rfl
-    | .op _ o a b, h => by
-      simp only [Factor.SafeDiv] at h
-      simp only [Factor.evalWith]
-      rw [Expr.evalO_eq σ a h.1, Expr.evalO_eq σ b h.2.1]
-      cases o
-      · exact tdiv_eq_fdiv_of_divOk (h.2.2 rfl)
-      all_goals rfl
-  theorem Term.evalO_eq (σ : String → Int) : (t : Term) → t.SafeDiv σ →
-      t.evalWith OpKind.onnx σ = t.evalWith OpKind.jax σ
-    | .one, _ => rfl
-    | .mul _ f p rest, h => by
-      simp only [Term.SafeDiv] at h
-      simp only [Term.evalWith]
-      rw [Factor.evalO_eq σ f h.1, Term.evalO_eq σ rest h.2]
-  theorem Terms.evalO_eq (σ : String → Int) : (t : Terms) → t.SafeDiv σ →
-      t.evalWith OpKind.onnx σ = t.evalWith OpKind.jax σ
-    | .nil, _ => rfl
-    | .cons _ _ t c rest, h => by
-      simp only [Terms.SafeDiv] at h
-      simp only [Terms.evalWith]
-      rw [Term.evalO_eq σ t h.1, Terms.evalO_eq σ rest h.2]
-  theorem Expr.evalO_eq (σ : String → Int) : (e : Expr) → e.SafeDiv σ →
-      e.evalWith OpKind.onnx σ = e.evalWith OpKind.jax σ
-    | .mk _ ts, h => by
-      simp only [Expr.SafeDiv] at h
-      simp only [Expr.evalWith]
-      exact Terms.evalO_eq σ ts h
-end
-
 
 /-- Every symbol of the expression is read from a tensor axis whose run-time extent is the symbol's value. -/
 def OrgSound (org : Org) (shapes : String → Nat → Int) (σ : String → Int) (vars : List String) : Prop :=
@@ -316,5 +268,135 @@ mutual
       simpa only [Terms.evalWith] using h2
 end
 end
+
+/-! ### Soundness of the key-consistency checker -/
+
+mutual
+  theorem Factor.same_eval (sem) (σ : String → Int) : (a b : Factor) → a.same b = true →
+      a.evalWith sem σ = b.evalWith sem σ
+    | .var x, .var y, h => by
+      simp only [Factor.same, beq_iff_eq] at h; subst h; rfl
+    | .op _ o a b, .op _ o' a' b', h => by
+      simp only [Factor.same, Bool.and_eq_true, beq_iff_eq] at h
+      obtain ⟨⟨ho, ha⟩, hb⟩ := h
+      subst ho
+      simp only [Factor.evalWith, Expr.same_eval sem σ a a' ha, Expr.same_eval sem σ b b' hb]
+    | .var _, .op _ _ _ _, h => by simp [Factor.same] at h
+    | .op _ _ _ _, .var _, h => by simp [Factor.same] at h
+  theorem Term.same_eval (sem) (σ : String → Int) : (a b : Term) → a.same b = true →
+      a.evalWith sem σ = b.evalWith sem σ
+    | .one, .one, _ => rfl
+    | .mul _ f p r, .mul _ f' p' r', h => by
+      simp only [Term.same, Bool.and_eq_true, beq_iff_eq] at h
+      obtain ⟨⟨hf, hp⟩, hr⟩ := h
+      subst hp
+      simp only [Term.evalWith, Factor.same_eval sem σ f f' hf, Term.same_eval sem σ r r' hr]
+    | .one, .mul _ _ _ _, h => by simp [Term.same] at h
+    | .mul _ _ _ _, .one, h => by simp [Term.same] at h
+  theorem Terms.same_eval (sem) (σ : String → Int) : (a b : Terms) → a.same b = true →
+      a.evalWith sem σ = b.evalWith sem σ
+    | .nil, .nil, _ => rfl
+    | .cons _ _ t c r, .cons _ _ t' c' r', h => by
+      simp only [Terms.same, Bool.and_eq_true, beq_iff_eq] at h
+      obtain ⟨⟨ht, hc⟩, hr⟩ := h
+      subst hc
+      simp only [Terms.evalWith, Term.same_eval sem σ t t' ht, Terms.same_eval sem σ r r' hr]
+    | .nil, .cons _ _ _ _ _, h => by simp [Terms.same] at h
+    | .cons _ _ _ _ _, .nil, h => by simp [Terms.same] at h
+  theorem Expr.same_eval (sem) (σ : String → Int) : (a b : Expr) → a.same b = true →
+      a.evalWith sem σ = b.evalWith sem σ
+    | .mk _ x, .mk _ y, h => by
+      simp only [Expr.same] at h
+      simp only [Expr.evalWith, Terms.same_eval sem σ x y h]
+end
+
+theorem nf_eval (sem) (σ : String → Int) : (d : Den) → d.nf.evalWith sem σ = d.eval sem σ
+  | .fac f => by
+    simp only [Den.nf, Den.eval, Terms.evalWith, Term.evalWith, Int.mul_one, Int.add_zero]
+    rw [Int.pow_succ, Int.pow_zero, Int.one_mul]
+  | .fp f p => by simp [Den.nf, Den.eval, Terms.evalWith, Term.evalWith]
+  | .term t => by simp [Den.nf, Den.eval, Terms.evalWith]
+  | .tc t c => by simp [Den.nf, Den.eval, Terms.evalWith]
+  | .expr (.mk _ ts) => by simp [Den.nf, Den.eval, Expr.evalWith]
+
+/-- the value assignment the checker justifies: a text key means what the first item carrying it means -/
+def Dof (items : List (String × Den)) (σ : String → Int) : Key → Int
+  | .num k => k
+  | .txt s => match firstWith items s with
+    | some d => d.eval OpKind.onnx σ
+    | none => 0
+
+theorem Dof_of_consistent (items : List (String × Den)) (σ : String → Int)
+    (h : itemsConsistent items = true) (k : String) (d : Den) (hm : (k, d) ∈ items) :
+    Dof items σ (.txt k) = d.eval OpKind.onnx σ := by
+  unfold itemsConsistent at h
+  rw [List.all_eq_true] at h
+  have := h (k, d) hm
+  simp only [Dof]
+  cases hf : firstWith items k with
+  | none => simp [hf] at this
+  | some d0 =>
+    simp only [hf] at this
+    simp only []
+    rw [← nf_eval, ← nf_eval OpKind.onnx σ d]
+    exact Terms.same_eval OpKind.onnx σ _ _ this
+
+/-- items membership is what `Faithful` asks for -/
+def ItemsOK (D : Key → Int) (σ : String → Int) (its : List (String × Den)) : Prop :=
+  ∀ k d, (k, d) ∈ its → D (.txt k) = d.eval OpKind.onnx σ
+
+theorem ItemsOK.sub {D σ a b} (h : ItemsOK D σ b) (hs : ∀ x, x ∈ a → x ∈ b) : ItemsOK D σ a :=
+  fun k d hm => h k d (hs _ hm)
+
+mutual
+  theorem Factor.faithful_of_items (D : Key → Int) (σ : String → Int) : (f : Factor) →
+      ItemsOK D σ f.items → f.Faithful D σ
+    | .var n, h => by
+      simpa [Factor.Faithful, Den.eval, Factor.evalWith] using h n (.fac (.var n)) (by simp [Factor.items])
+    | .op key o a b, h => by
+      refine ⟨?_, Expr.faithful_of_items D σ a (h.sub ?_), Expr.faithful_of_items D σ b (h.sub ?_)⟩
+      · simpa [Den.eval, Factor.evalWith] using h key (.fac (.op key o a b)) (by simp [Factor.items])
+      · intro x hx; simp [Factor.items, hx]
+      · intro x hx; simp [Factor.items, hx]
+  theorem Term.faithful_of_items (D : Key → Int) (σ : String → Int) : (t : Term) →
+      ItemsOK D σ t.items → t.Faithful D σ
+    | .one, _ => trivial
+    | .mul kFP f p rest, h => by
+      refine ⟨?_, Factor.faithful_of_items D σ f (h.sub ?_), Term.faithful_of_items D σ rest (h.sub ?_)⟩
+      · simpa [Den.eval] using h kFP (.fp f p) (by simp [Term.items])
+      · intro x hx; simp [Term.items, hx]
+      · intro x hx; simp [Term.items, hx]
+  theorem Terms.faithful_of_items (D : Key → Int) (σ : String → Int) : (ts : Terms) →
+      ItemsOK D σ ts.items → ts.Faithful D σ
+    | .nil, _ => trivial
+    | .cons kTC kT t c rest, h => by
+      refine ⟨?_, ?_, Term.faithful_of_items D σ t (h.sub ?_), Terms.faithful_of_items D σ rest (h.sub ?_)⟩
+      · simpa [Den.eval] using h kTC (.tc t c) (by simp [Terms.items])
+      · simpa [Den.eval] using h kT (.term t) (by simp [Terms.items])
+      · intro x hx; simp [Terms.items, hx]
+      · intro x hx; simp [Terms.items, hx]
+  theorem Expr.faithful_of_items (D : Key → Int) (σ : String → Int) : (e : Expr) →
+      ItemsOK D σ e.items → e.Faithful D σ
+    | .mk kE ts, h => by
+      refine ⟨?_, Terms.faithful_of_items D σ ts (h.sub ?_)⟩
+      · simpa [Den.eval, Expr.evalWith] using h kE (.expr (.mk kE ts)) (by simp [Expr.items])
+      · intro x hx; simp [Expr.items, hx]
+end
+
+theorem items_mem_all : ∀ (es : List Expr) (e : Expr), e ∈ es → ∀ x, x ∈ e.items → x ∈ allItems es
+  | e' :: es, e, h, x, hx => by
+    simp only [allItems, List.mem_append]
+    rcases List.mem_cons.mp h with rfl | h'
+    · exact Or.inl hx
+    · exact Or.inr (items_mem_all es e h' x hx)
+
+/-- **Checker soundness.** If the keys of all expressions lowered through one memo pass the check,
+    every one of them is `Faithful` for the value assignment `Dof`, for every binding. -/
+theorem faithful_of_consistent (es : List Expr) (σ : String → Int) (h : keysConsistent es = true) :
+    ∀ e ∈ es, e.Faithful (Dof (allItems es) σ) σ := by
+  intro e he
+  apply Expr.faithful_of_items
+  intro k d hm
+  exact Dof_of_consistent _ σ h k d (items_mem_all es e he _ hm)
 
 end J2O.C04
